@@ -417,3 +417,38 @@ func CallerFacts(h *ssa.Function) []TFact {
 	callerFactsCache[h] = out
 	return out
 }
+
+// ResolveParamIn is ResolveIn restricted to parameters: a helper's parameter becomes the argument at its
+// call site inside fn; calls are not entered.
+func ResolveParamIn(fn *ssa.Function, v ssa.Value) ssa.Value {
+	for i := 0; i < 6; i++ {
+		v = Strip(v)
+		p, ok := v.(*ssa.Parameter)
+		if !ok || p.Parent() == fn || !PrivateHelper(p.Parent()) {
+			return v
+		}
+		r := ResolveIn(fn, p)
+		// one step only: ResolveIn continues through calls, so redo the single parameter step by hand
+		h := p.Parent()
+		idx := -1
+		for k, q := range h.Params {
+			if q == p {
+				idx = k
+			}
+		}
+		var site ssa.CallInstruction
+		n := 0
+		for _, cs := range helperCallSites(h) {
+			if siteInShallow(fn, cs, 0) {
+				site = cs
+				n++
+			}
+		}
+		_ = r
+		if n != 1 || idx < 0 || idx >= len(site.Common().Args) {
+			return v
+		}
+		v = site.Common().Args[idx]
+	}
+	return Strip(v)
+}
